@@ -175,3 +175,18 @@ Proof.
   pose proof (table_log _ W2) as L2. pose proof (table_log _ W) as L.
   unfold run, run_from in L2, L. rewrite L2, L, !log_of_view, E2, map_app. reflexivity.
 Qed.
+
+(* The running-state form of the table spec (Spec/ErrBulk.v [srun]) against
+   [expected_errors] of the expanded history: checked here on a history that
+   uses every bulk event, pending errors, attach, separator and misuse; the
+   general equivalence is not proved (notes/r6-C11.md). *)
+Example srun_agrees_on_sample :
+  let bh := [ BOne (AttachRow 1); BCallbacks STblCellAddRow 1 0 4; BRowErrs 9 100 5;
+              BOne (CallbackFails SRowCellAdd 9 (Some 50%N)); BTableErrs 60 3;
+              BOne (AttachRow 9); BRowErrs 9 105 2; BOne (AddSeparator 7); BOne (RowAddOnSeparator 7 70%N);
+              BOne (TableAddErrorList (Some (unruns [(None, 2%N); (Some 200%N, 3%N)]))); BRowErrs 8 300 2;
+              BCallbacks STblItselfPre 0 400 2 ] in
+  wf_hist (bexpand_all bh)
+  /\ s_log (srun bh) = expected_errors (bexpand_all bh)
+  /\ pend_of (s_pend (srun bh)) 8 = raised_by (bexpand_all bh) (Some 8).
+Proof. cbv zeta. repeat split; vm_compute; reflexivity. Qed.
